@@ -803,7 +803,7 @@ fn conv_seed(r: &mut CaseResult, p0: &M2Model, seed: &emit::Seed, _from: M2Versi
 fn build(name: &str, _arg: &str, tier: Tier) -> Box<dyn Space> {
     vcore::alloc::HARD_CAP.store(1usize << 30, std::sync::atomic::Ordering::Relaxed);
     match name {
-        "m2" => Box::new(M2Space::new(tier.pick(2, 3), tier.pick(&[0][..], &[0, 4][..]))),
+        "m2" => Box::new(M2Space::new(tier.pick(2, 3), tier.pick(&[0][..], &[0, 4, 7][..]))),
         "m2conv" => Box::new(ConvSpace { models: enum_models(tier.pick(1, 2)), rotations: tier.pick(vec![0], vec![0, 4]) }),
         "seed" => Box::new(SeedSpace::new(tier)),
         "skin" => Box::new(skinfile::SkinSpace::new(tier)),
@@ -843,6 +843,11 @@ fn main() {
                         }
                     };
                     let mut t = table.lock().unwrap();
+                    if std::env::var("C13_DUMP").is_ok() {
+                        for v in &r.viols {
+                            println!("DUMP\t{}", json!({"i": i, "symptom": v.symptom, "case": sp.describe(i).to_string()}));
+                        }
+                    }
                     for v in r.viols {
                         let e = t.entry(v.symptom).or_insert((0, u64::MAX, String::new()));
                         e.0 += 1;
@@ -862,9 +867,9 @@ fn main() {
     let Mode::Supervisor(mut c) = start("C13", "exploration", build) else { return };
     let k = c.tier.pick(2, 3);
     c.rule = format!(
-        "m2: every model within <= {k} site deviations of the all-empty and of the all-populated baseline ({} sites, 3-5 population levels each: empty/one/three, names none/short/255 chars, textures unnamed/named, float pool ±0,1,-1.5,MAX,MIN_POSITIVE,±inf,subnormal) x 8 header numbers (5 versions + 257, 263, 271) x {} rotation(s) of the float pool over the fields; m2conv: every model within <= {} deviations x all 25 (from,to) pairs x 2 entry points x the same rotations; seed: byte-level MD20 files carrying 1 or 3 key frames (or none) in 1 or 3 records for every subset of <= {} of the 11 animated sections (+ all eleven) x variant {{plain, shared timestamp arrays, key-less tracks with non-default header}} x 5 versions, each also converted to all 5 versions; skin: full product of 5 sections x {{empty,one,many}} x 6 header layouts x conversions; anim: full product format x sections x bones x track mask x keys. A case is non-trivial when at least one section is populated; distinct by its axis tuple.",
+        "m2: every model within <= {k} site deviations of the all-empty and of the all-populated baseline ({} sites, 3-5 population levels each: empty/one/three, names none/short/255 chars, textures unnamed/named, float pool ±0,1,-1.5,MAX,MIN_POSITIVE,±inf,subnormal) x 8 header numbers (5 versions + 257, 263, 271) x {} rotation(s) of the float pool over the fields; m2conv: every model within <= {} deviations x all 25 (from,to) pairs x 2 entry points (thorough: x 2 float rotations); seed: byte-level MD20 files carrying 1 or 3 key frames (or none) in 1 or 3 records for every subset of <= {} of the 11 animated sections (+ all eleven) x variant {{plain, shared timestamp arrays, key-less tracks with non-default header}} x 5 versions, each also converted to all 5 versions; skin: full product of 5 sections x {{empty,one,many}} x 6 header layouts x conversions; anim: full product format x sections x bones x track mask x keys. A case is non-trivial when at least one section is populated; distinct by its axis tuple.",
         gen::SITES.len(),
-        c.tier.pick(1, 2),
+        c.tier.pick(1, 3),
         c.tier.pick(1, 2),
         c.tier.pick(2, 3)
     );
